@@ -494,6 +494,7 @@ func ToleratedFaultsInBody() {
 func init() {
 	vrt.Register("C08_generated_bodies", GeneratedBodies)
 	vrt.Register("C08_element_kinds", ElementKinds)
+	vrt.Register("C08_iterable_expressions", IterableExpressions)
 }
 
 func GeneratedBodies() {
@@ -567,5 +568,41 @@ func ElementKinds() {
 	vrt.Note("got", got)
 	vrt.Assert(err == nil, "a loop over elements of any kind renders")
 	vrt.Assert(got == "["+want+"]", "every element is visited once, in order, whatever its kind (only the untyped nil ends an iterator)")
+	vrt.Cover("done")
+}
+
+// ---- the iterable is an expression: whatever form it has, the { after it opens
+// the loop's body (a call the iterable ends in does not take it as its block)
+type boxI struct{ xs []int }
+
+func (b boxI) Self() boxI        { return b }
+func (b boxI) Items(n int) []int { return b.xs[:n] }
+
+func IterableExpressions() {
+	a, b := vrt.Int(), vrt.Int()
+	ctx := plush.NewContext()
+	o := boxI{xs: []int{a, b, 9}}
+	ctx.Set("o", o)
+	ctx.Set("objs", []boxI{o})
+	ctx.Set("m", map[string]boxI{"k": o})
+	ctx.Set("xs", []int{a})
+	ctx.Set("one", func() int { return b })
+	ctx.Set("pick", func(n int) []int { return o.xs[:n] })
+	its := []string{
+		"o.Items(2)", "o.Self().Items(2)", "objs[0].Items(2)", "m[\"k\"].Self().Items(2)", "xs + one()",
+		"pick(2)", "pick(len(xs) + 1)", "o.Self().Self().Items(2)", "objs[0].Self().Items(2)", "(pick(2))", "[a0, one()]",
+	}
+	ctx.Set("a0", a)
+	it := its[vrt.Choice(len(its))]
+	var in string
+	if vrt.Choice(2) == 0 {
+		in = "[<%= for (v) in " + it + " { %>(<%= v %>)<% } %>]"
+	} else {
+		in = "[<%= for (i, v) in " + it + " { %>(<%= v %>)<% } %>]"
+	}
+	vrt.Note("input", in)
+	got, err := plush.Render(in, ctx)
+	vrt.Assert(err == nil, "a loop over an iterable written as any expression renders: "+it)
+	vrt.Assert(got == "[("+itoa(a)+")("+itoa(b)+")]", "the body is rendered once per element of the value of the iterable expression: "+it)
 	vrt.Cover("done")
 }
